@@ -267,7 +267,17 @@ class Layout:
                     lines.append(rng.choice(["C interleaved zn8", "", "* zn9", "c", "!   zn1", "   ", "      ", "          ", " " * 30, "c$$$ zn8 = 2", "C$$$c$$$ zn9", "*$ zn1",
                                              "       ! zn4 comment from column 8", " " * 14 + "! zn5 indented comment", "  ! zn6 comment from column 3"]))
                     self.features.add("fixed_cont_interleaved")
-            if inline and (len(lines[-1]) + len(inline) <= 72 or not length_limit):
+            if (inline and len(pieces) > 1 and not self.plain and rng.random() < 0.3 and not lexer.in_literal(pieces[0]) and "!" not in lines[0]
+                    and (len(lines[0]) + len(inline) <= 72 or not length_limit) and not lines[0].startswith(("C", "c", "*", "!"))):
+                # the inline doc comment stands on the first line of a statement that is continued
+                k0 = [k for k, l in enumerate(lines) if l.endswith(pieces[0])]
+                if k0:
+                    lines[k0[0]] += inline
+                    self.features.add("fixed_inline_doc_on_continued_line")
+                    inline = None
+            if inline is None:
+                pass
+            elif inline and (len(lines[-1]) + len(inline) <= 72 or not length_limit):
                 lines[-1] += inline
             elif inline:
                 post_lines = [f"!{self.docmark} {docs[0]}"] + post_lines
